@@ -22,7 +22,7 @@ RULE = ('strata: X = exhaustive layering of 2 names over 5 layer slots (register
         'configured directories plus a configured-but-missing one, files B.yaml a.yaml a10.json a2.yaml .hidden.yaml '
         'sub/x.yaml Z.yaml z.json m.yaml created in shuffled order, every file independently JSON / YAML / line-style YAML, paths absolute or relative to a configuration directory; '
         'Z = exhaustive file-selection table 7 ways of setting policy_file x 8 existence patterns x fallback switch x '
-        'explicit argument = 224 rows. Each configuration is decided for every name under every single-role credential. '
+        'explicit argument = 224 rows. Each configuration is decided for every name under every single-role credential; in half of the configurations the registered defaults declare scope types and every decision is repeated with a wrongly scoped token (must be denied whichever layer wins). '
         'Non-trivial = at least one name is defined in two or more layers; distinct = distinct configuration.')
 ASSUMPTIONS = ['lexicographic order = Python sorted() of the file names (code-point order)',
                'oslo_policy.opts._options is swapped for a pristine deep copy around cases that call set_defaults',
@@ -33,7 +33,7 @@ LEVEL_TEXT = ('The file-selection table and the small layering space are enumera
 LEVEL_NOTE = 'trusted: the fold that computes the expected effective layer; PyYAML/json as writers'
 PLAN = {'quick': dict(shards=4, wall=60), 'thorough': dict(shards=16, wall=400)}
 MIN = {'evaluations': 600, 'decisions': 5000, 'allow_decisions': 300, 'file_selection_rows': 224,
-       'configs_with_shadowing': 300}
+       'configs_with_shadowing': 300, 'scoped_decisions': 500}
 ANCHORS = ['oslo_policy.policy:Enforcer.load_rules', 'oslo_policy.policy:Enforcer._walk_through_policy_directory',
            'oslo_policy.policy:pick_default_policy_file', 'oslo_policy.policy:parse_file_contents',
            'oslo_policy.policy:Enforcer.enforce']
@@ -77,10 +77,15 @@ def check_layering(ctx, case):
                 eff[n] = lid_role(lid)
         conf = tree.conf(policy_dirs=[tree.path(d) for d in case['dirs']], relative=bool(case.get('relative')))
         enf = policy.Enforcer(conf)
+        scoped = set()
         for lid, p, defs in case['layers']:
             if lid == 'default':
                 for n in defs:
-                    enf.register_default(policy.RuleDefault(n, content['default'][n]))
+                    # registered defaults declare scope types: whichever layer wins, the gate uses these
+                    st = ['project'] if case.get('scoped') else None
+                    if st:
+                        scoped.add(n)
+                    enf.register_default(policy.RuleDefault(n, content['default'][n], scope_types=st))
         roles = sorted({lid_role(l[0]) for l in case['layers']} | {'SUB', 'nobody'})
         shadow = any(sum(1 for l in case['layers'] if n in l[2] and not (l[1] and os.path.basename(l[1]).startswith('.'))) > 1
                      for n in names)
@@ -97,6 +102,19 @@ def check_layering(ctx, case):
                 ctx.count('decisions')
                 if got is True:
                     ctx.count('allow_decisions')
+                if n in scoped:
+                    # the same request with a system-scoped token: denied by the scope gate of the registered default,
+                    # no matter which layer defines the check
+                    try:
+                        sgot = bool(enf.enforce(n, {}, {'roles': [r], 'system_scope': 'all'}))
+                    except Exception as e:
+                        sgot = 'EXC:' + type(e).__name__
+                    ctx.count('scoped_decisions')
+                    if sgot is not False:
+                        ctx.violation('scope-types-not-from-registered-default', case,
+                                      {'name': n, 'role': r, 'winning_layer': eff.get(n), 'registered_scope_types': ['project'],
+                                       'credentials': 'system-scoped', 'observed': sgot, 'expected': False})
+                        return
                 if got != want:
                     if isinstance(got, str):
                         key = 'load-or-enforce-raises'
@@ -135,7 +153,7 @@ def gen_layering(rnd):
     dirs = list(DIRS)
     if rnd.random() < 0.3:
         rnd.shuffle(dirs)
-    return dict(s='Y', names=names, dirs=dirs, layers=layers, fmts=fmts, write_order=order, subdir=True,
+    return dict(s='Y', names=names, dirs=dirs, layers=layers, fmts=fmts, write_order=order, subdir=True, scoped=rnd.random() < 0.5,
                 relative=rnd.random() < 0.4)
 
 
@@ -155,7 +173,7 @@ def exhaustive_layerings():
                     layers.append([lid, p, defs])
             fmts = {l[0]: ('json', 'yaml', 'yaml-lines')[(i + k) % 3] for k, l in enumerate(layers) if l[1]}
             order = [l[0] for l in reversed(layers)]
-            yield dict(s='X', names=['n1', 'n2', 'n3'], dirs=['d1', 'd2'], layers=layers, fmts=fmts, write_order=order)
+            yield dict(s='X', names=['n1', 'n2', 'n3'], dirs=['d1', 'd2'], layers=layers, fmts=fmts, write_order=order, scoped=bool(i % 2))
             i += 1
 
 
